@@ -1165,6 +1165,7 @@ Proof.
   - unfold w_exit. destruct (lookup a (actors w)) as [x|]; [|exact H].
     destruct (a_alive x), (a_stop x), (a_run x); try exact H. apply actor_exit_Inv. exact H.
   - eapply sameX_Inv; [|apply stop_actor_Inv; exact H]. sx.
+  - eapply sameX_Inv; [|exact H]. sx.
   - unfold w_close. destruct (lookup a (actors w)) as [x|]; [|exact H].
     destruct (a_alive x), (a_stop x), (a_run x); try exact H.
     pose proof (actor_exit_Inv None a (CStopExit a) w H) as H1.
